@@ -1,6 +1,7 @@
-(* C12 driver: same line protocol as harness/h_exf.c, answered by the extracted model (coq/FS/Exf.v).
-   `limit <n>` sets the oracle of the operating system handed to every later call: os_limit n (RLIMIT_FSIZE = n),
-   `limit -1` = os_any (no refusal). *)
+(* C12 driver: same line protocol as harness/h_exf.c, answered by the extracted model (coq/FS/Exf.v, coq/FS/ExfFile.v).
+   `limit <n>` / `maplimit <d>` set the oracle of the operating system handed to every later call:
+   os_limits (Some n) (Some b) - RLIMIT_FSIZE = n, and b = bytes mapped by the windows at that moment + d is the budget for mmap;
+   a negative argument lifts the respective limit.  `locks 1` makes the next handle use the lock model (lstep). *)
 let q = tree_quirks
 let rcname rc =
   if rc = Z0 then "OK"
@@ -8,23 +9,104 @@ let rcname rc =
   else if rc = eXF_E_OVERFLOW then "OVERFLOW" else if rc = eXF_E_MAXOFF then "MAXOFF"
   else if rc = eXF_E_POLFAIL then "POLFAIL" else if rc = eXF_E_OVERLAP then "OVERLAP"
   else if rc = eXF_E_NOTMM then "NOTMM" else if rc = eXF_CRASH then "CRASH" else if rc = eXF_E_IO then "IOERR"
+  else if rc = eXF_E_ERRNO then "ERRNO" else if rc = eXF_E_READONLY then "READONLY" else if rc = eXF_E_INVARGS then "INVARGS"
+  else if rc = eXF_E_NOT_EXISTS then "NOTEXISTS" else if rc = eXF_HANG then "HANG"
   else "E" ^ string_of_z rc
 
-let kfile : z list ref = ref []        (* the file as the kernel keeps it across close/open *)
+let kfile : z list option ref = ref None   (* the data file as the kernel keeps it across close/open; None = it does not exist *)
 let st : exf option ref = ref None
 let poisoned = ref false
+let ro = ref false
 let lim : z option ref = ref None
-let ok () = match !lim with None -> os_any | Some l -> os_limit l
+let maplim : z option ref = ref None
+let locks_next = ref false
+let locks = ref false
+let held = ref Z0
+let ok () = os_limits !lim !maplim
 
+let klen () = match !kfile with None -> "-1" | Some f -> string_of_z (zlen f)
 let tail () =
   match !st with
-  | Some s when not !poisoned -> kfile := s.file;
-    Printf.sprintf " fsize=%s stat=%s" (string_of_z s.fsize) (string_of_z (zlen s.file))
-  | _ -> Printf.sprintf " fsize=-1 stat=%s" (string_of_z (zlen !kfile))
+  | Some s when not !poisoned -> if not !ro then kfile := Some s.file;
+    Printf.sprintf " fsize=%s stat=%s" (string_of_z s.fsize) (klen ())
+  | _ -> Printf.sprintf " fsize=-1 stat=%s" (klen ())
 
-let fin op rc s' =
-  if rc = eXF_CRASH then (poisoned := true; op ^ " CRASH")
-  else (st := Some s'; op ^ " " ^ rcname rc ^ tail ())
+let patbyte seed i = z_of_int ((seed * 131 + i * 31 + (i lsr 8) * 7) mod 251 + 1)
+let pattern len seed = List.init len (fun i -> patbyte seed i)
+
+(* one call of the method table: through the lock model when the handle was opened with use_locks *)
+let call s o =
+  if !locks then begin
+    let ((r, h'), s') = lstep q (ok ()) !held s o in
+    held := h'; (r, s')
+  end else step q (ok ()) s o
+
+let policy pol rest = match pol, rest with
+  | "fibo", _ -> PFibo Z0
+  | "mul", n :: dn :: _ -> PMul (z_of_string n, z_of_string dn)
+  | "mul", _ -> PMul (Z0, Z0)
+  | "muln", _ -> PMulNull
+  | _ -> PDefault
+
+(* the plain file *)
+let kraw : z list option ref = ref None
+let pf : pfile option ref = ref None
+let pf_tmp = ref false
+let fstat () = match !pf with
+  | Some p -> string_of_z (zlen p.pf_bytes)
+  | None -> (match !kraw with None -> "-1" | Some f -> string_of_z (zlen f))
+let rawstat () = match !pf with                     (* the size of <path>.raw itself (an IWFS_OTMP handle is another file) *)
+  | Some p when not !pf_tmp -> string_of_z (zlen p.pf_bytes)
+  | _ -> (match !kraw with None -> "-1" | Some f -> string_of_z (zlen f))
+let oct n = Printf.sprintf "%o" n
+let fclose_k () = match !pf with
+  | Some p -> (if not !pf_tmp then kraw := pf_close p); pf := None; pf_tmp := false
+  | None -> ()
+
+let fhandle op args =
+  match op, args with
+  | "fraw", [len; seed] ->
+    if !pf <> None then "fraw ERR fstat=" ^ rawstat ()
+    else (kraw := Some (pattern (int_of_string len) (int_of_string seed)); "fraw OK fstat=" ^ fstat ())
+  | "frm", _ ->
+    if !pf <> None || !kraw = None then "frm ERR fstat=" ^ rawstat () else (kraw := None; "frm OK fstat=-1")
+  | "fhold", _ -> "fhold OK fstat=" ^ fstat ()      (* only used by the leak script, which is not run on the model *)
+  | "fopen", [om; lk] ->
+    fclose_k ();
+    let o = { fo_omode = z_of_string om; fo_lock = z_of_string lk; fo_filemode = Z0 } in
+    let tmp = has (norm_opts o).fo_omode eXF_OTMP in
+    let ((rc, h), k') = file_open o (if tmp then None else !kraw) in
+    if not tmp then kraw := k';
+    pf := h; pf_tmp := tmp && h <> None;
+    (match h with
+     | Some p -> Printf.sprintf "fopen OK open=1 os=%s om=%s lk=%s fm=%s tmp=%d fstat=%s" (string_of_z p.pf_ostatus)
+                   (string_of_z p.pf_opts.fo_omode) (string_of_z p.pf_opts.fo_lock) (oct (int_of_z p.pf_opts.fo_filemode))
+                   (if tmp then 1 else 0) (fstat ())
+     | None -> Printf.sprintf "fopen %s open=0 os=0 om=0 lk=0 fm=0 tmp=0 fstat=%s" (rcname rc) (fstat ()))
+  | _ ->
+    match !pf with
+    | None -> op ^ " NOTOPEN fstat=" ^ fstat ()
+    | Some p ->
+      (match op, args with
+       | "fwrite", [off; h] ->
+         let ((rc, sp), p') = pf_write p (z_of_string off) (bytes_of_hex h) in
+         pf := Some p';
+         Printf.sprintf "fwrite %s %s fstat=%s" (rcname rc) (match sp with Some n -> string_of_z n | None -> "x") (fstat ())
+       | "fread", [off; n] ->
+         let ((rc, sp), b) = pf_read p (z_of_string off) (z_of_string n) in
+         Printf.sprintf "fread %s %s %s fstat=%s" (rcname rc) (string_of_z sp) (hex_of_bytes b) (fstat ())
+       | "fcopy", [off; siz; noff] ->
+         let (rc, p') = pf_copy q p (z_of_string off) (z_of_string siz) (z_of_string noff) in
+         pf := Some p';
+         Printf.sprintf "fcopy %s fstat=%s" (rcname rc) (fstat ())
+       | "fsync", _ -> "fsync OK fstat=" ^ fstat ()
+       | "fstate", _ ->
+         Printf.sprintf "fstate OK open=1 os=%s om=%s lk=%s fstat=%s" (string_of_z p.pf_ostatus) (string_of_z p.pf_opts.fo_omode)
+           (string_of_z p.pf_opts.fo_lock) (fstat ())
+       | "fclose", _ ->
+         let left = if has p.pf_opts.fo_omode eXF_OUNLINK then "-1" else fstat () in
+         fclose_k (); "fclose OK fstat=" ^ left
+       | _ -> op ^ " BADOP")
 
 let handle toks =
   match toks with
@@ -33,50 +115,78 @@ let handle toks =
     let v = z_of_string n in
     lim := (if sign_of_z v < 0 then None else Some v);
     "limit OK" ^ tail ()
+  | ["maplimit"; n] ->
+    let v = z_of_string n in
+    let cur = match !st with Some s when not !poisoned -> mapped_total s.slots | _ -> Z0 in
+    maplim := (if sign_of_z v < 0 then None else Some (Z.add cur v));
+    "maplimit OK" ^ tail ()
+  | ["locks"; n] -> locks_next := (n <> "0"); "locks OK" ^ tail ()
+  | ["raw"; len; seed] ->
+    if !st <> None && not !poisoned then "raw BUSY" ^ tail ()
+    else (kfile := Some (pattern (int_of_string len) (int_of_string seed)); "raw OK" ^ tail ())
+  | op :: args when String.length op > 1 && op.[0] = 'f' -> fhandle op args
   | "open" :: trunc :: isz :: mo :: pol :: rest ->
     let trunc = trunc <> "0" in
     st := None;
     if !poisoned && not trunc then "open POISONED" else begin
-      poisoned := false;
-      if trunc then kfile := [];
-      let p = match pol, rest with
-        | "fibo", _ -> PFibo Z0
-        | "mul", n :: dn :: _ -> PMul (z_of_string n, z_of_string dn)
-        | "mul", _ -> PMul (Z0, Z0)
-        | "muln", _ -> PMulNull
-        | _ -> PDefault in
-      let (rc, s) = exfile_open (ok ()) !kfile (z_of_string isz) (z_of_string mo) p in
+      poisoned := false; ro := false; locks := !locks_next; held := Z0;
+      let k = if trunc then [] else (match !kfile with Some f -> f | None -> []) in
+      let (rc, s) = exfile_open q (ok ()) k (z_of_string isz) (z_of_string mo) (policy pol rest) in
+      if rc <> eXF_E_INVARGS then kfile := Some k;   (* the file has been created / truncated by then *)
       if rc = Z0 then st := Some s;
       "open " ^ rcname rc ^ tail ()
+    end
+  | "openro" :: isz :: mo :: pol :: rest ->
+    st := None;
+    if !poisoned then "openro POISONED" else begin
+      ro := true; locks := !locks_next; held := Z0;
+      match !kfile with
+      | None -> "openro NOTEXISTS" ^ tail ()
+      | Some k ->
+        let (rc, s) = exfile_open_ro q k (z_of_string isz) (z_of_string mo) (policy pol rest) in
+        if rc = Z0 then st := Some s;
+        "openro " ^ rcname rc ^ tail ()
     end
   | op :: args ->
     if !poisoned then op ^ " POISONED" else
     match !st with
     | None -> op ^ " NOTOPEN"
     | Some s ->
+      if !ro && not (List.mem op ["read"; "state"; "probe"; "syncmm"; "close"]) then op ^ " ROMODE" ^ tail () else
+      let run o fmt =
+        let (r, s') = call s o in
+        if r.o_rc = eXF_CRASH then (poisoned := true; op ^ " CRASH")
+        else if r.o_rc = eXF_HANG then (poisoned := true; op ^ " HANG")
+        else (st := Some s'; fmt r ^ tail ()) in
+      let plain r = op ^ " " ^ rcname r.o_rc in
+      let withsp r = Printf.sprintf "%s %s %s" op (rcname r.o_rc) (string_of_z r.o_sp) in
       (match op, args with
-       | "write", [off; h] ->
-         let ((rc, sp), s') = exfile_write q (ok ()) s (z_of_string off) (bytes_of_hex h) in
-         if rc = eXF_CRASH then (poisoned := true; "write CRASH")
-         else (st := Some s'; Printf.sprintf "write %s %s%s" (rcname rc) (string_of_z sp) (tail ()))
+       | "write", [off; h] -> run (OWrite (z_of_string off, bytes_of_hex h)) withsp
        | "read", [off; n] ->
-         let ((rc, sp), b) = exfile_read s (z_of_string off) (z_of_string n) in
-         if rc = eXF_CRASH then (poisoned := true; "read CRASH")
-         else Printf.sprintf "read %s %s %s%s" (rcname rc) (string_of_z sp) (hex_of_bytes b) (tail ())
-       | "copy", [off; siz; noff] ->
-         let (rc, s') = exfile_copy q (ok ()) s (z_of_string off) (z_of_string siz) (z_of_string noff) in fin "copy" rc s'
-       | "truncate", [sz] -> let (rc, s') = truncate_lw (ok ()) s (z_of_string sz) in fin "truncate" rc s'
-       | "ensure", [sz] -> let (rc, s') = ensure_size_lw q (ok ()) s (z_of_string sz) in fin "ensure" rc s'
-       | "addmm", [off; ml; fl] ->
-         let (rc, s') = add_mmap_lw s (z_of_string off) (z_of_string ml) (z_of_string fl) in fin "addmm" rc s'
-       | "rmmm", [off] -> let (rc, s') = remove_mmap_lw s (z_of_string off) in fin "rmmm" rc s'
-       | "probe", [off] ->
-         let (rc, sp) = probe_mmap s.slots (z_of_string off) in
-         Printf.sprintf "probe %s %s%s" (rcname rc) (string_of_z sp) (tail ())
-       | "sync", _ -> "sync OK" ^ tail ()
-       | "remap", _ -> fin "remap" Z0 (remap_all s)
-       | "state", _ -> "state OK" ^ tail ()
-       | "close", _ -> kfile := s.file; st := None; "close OK" ^ tail ()
+         run (ORead (z_of_string off, z_of_string n))
+           (fun r -> Printf.sprintf "read %s %s %s" (rcname r.o_rc) (string_of_z r.o_sp) (hex_of_bytes r.o_data))
+       | "copy", [off; siz; noff] -> run (OCopy (z_of_string off, z_of_string siz, z_of_string noff)) plain
+       | "truncate", [sz] -> run (OTruncate (z_of_string sz)) plain
+       | "ensure", [sz] -> run (OEnsure (z_of_string sz)) plain
+       | "addmm", [off; ml; fl] -> run (OAddMmap (z_of_string off, z_of_string ml, z_of_string fl)) plain
+       | "rmmm", [off] -> run (ORemoveMmap (z_of_string off)) plain
+       | "probe", [off] -> run (OProbe (z_of_string off)) withsp
+       | "acquire", [off] -> run (OAcquire (z_of_string off)) withsp
+       | "release", _ -> run ORelease plain
+       | "syncmm", [off] -> run (OSyncMmap (z_of_string off)) plain
+       | "sync", _ -> run OSync plain
+       | "remap", _ -> run ORemap plain
+       | "state", _ -> run OState (fun _ -> "state OK")
+       | "close", _ ->
+         if !locks && sign_of_z !held > 0 then (poisoned := true; "close HANG")
+         else begin
+           if not !ro then kfile := Some s.file;
+           st := None; "close OK" ^ tail ()
+         end
        | _ -> op ^ " BADOP" ^ tail ())
 
-let () = main_loop handle
+(* ftrunc/pread on a file of some hundred thousand bytes recurse that deep: run with a large stack (re-exec once under ulimit -s) *)
+let () =
+  if Sys.getenv_opt "EXF_DEEP" = None then
+    exit (Sys.command ("ulimit -s 4000000 2>/dev/null || ulimit -s unlimited 2>/dev/null; EXF_DEEP=1 exec " ^ Filename.quote Sys.executable_name))
+  else main_loop handle
